@@ -537,4 +537,41 @@ example : ∀ mu ∈ exHist, mu.WF := by decide
 example : (runOps Store.init [.submit exHist[0], .restart, .submit exHist[1], .restart, .restart, .submit exHist[2]]).toOption.map
     (fun s => (s.log.length, s.counter)) = some (2, 3) := by decide
 
+/-- non-vacuity for the lease theorems: children appended, a lease acquired on the key (a second
+`Acquire` conflicts, `Renew` with the current token succeeds, a foreign token is rejected), then
+`RemoveKeys` over the leased key, another key put, restart -/
+def exSteps : List Step :=
+  [ .mutate { type := tAppend, key := [1], value := [7] },
+    .mutate { type := tPut, key := [1], value := [5] },
+    .lease (.acquire [1] true),
+    .lease (.acquire [2] true),
+    .mutate { type := tRemoveKeys, keys := [[1]] },
+    .mutate { type := tPut, key := [3], value := [6] } ]
+
+example : (volatile (volatile Mem.empty (.acquire [1] true)).1 (.acquire [1] true)).2 = some .conflict := by decide
+example : (volatile (volatile Mem.empty (.acquire [1] true)).1 (.renew [1] true none)).2 = none := by decide
+example : (volatile (volatile Mem.empty (.acquire [1] true)).1 (.renew [1] true (some 3))).2 = some .expired := by decide
+example : (volatile (volatile Mem.empty (.acquire [1] true)).1 (.release [1] (some 3))).2 = some .expired := by decide
+example : (volatile Mem.empty (.acquire [1] false)).2 = some .invalidTTL := by decide
+/-- the leased key is really dropped by RemoveKeys, the other lease is live before the stop and gone
+after it: the strong invariant `Inv` does not hold here, `InvV` (and the property) does -/
+example : (runSteps Store.init exSteps).toOption.map
+      (fun s => ((s.mem.get [1]).children, (s.mem.get [1]).lease, (s.mem.get [2]).lease, (s.mem.get [3]).val))
+    = some ([], 0, liveTok, [6]) := by decide
+example : (runSteps Store.init (exSteps ++ [.restart])).toOption.map
+      (fun s => ((s.mem.get [1]).children, (s.mem.get [1]).lease, (s.mem.get [2]).lease, (s.mem.get [3]).val))
+    = some ([], 0, 0, [6]) := by decide
+
+/-- Why `deleteAll` must not look at the lease: a `RemoveKeys` that keeps the children of an entry
+holding a lease (clearing only its value) makes the outcome of a logged mutation depend on state the
+log does not carry — live the children stay, on replay (no lease) they are dropped. -/
+def eraseKeepLeased (m : Mem) (k : Bytes) : Mem :=
+  if (m.get k).lease ≠ 0 then m.set k { m.get k with val := [] } else m.erase k
+
+theorem removeKeys_reading_the_lease_violates :
+    let live := eraseKeepLeased (volatile ((Mem.empty.set [1] { children := [[7]] })) (.acquire [1] true)).1 [1]
+    let replayed := eraseKeepLeased (Mem.empty.set [1] { children := [[7]] }) [1]
+    (live.get [1]).children = [[7]] ∧ (replayed.get [1]).children = [] := by
+  decide
+
 end Specter.Aof
